@@ -1,6 +1,7 @@
 (* C19  Signals: signal-mask bookkeeping is exact; each pending signal reported once. *)
 From CV Require Import Base Signals.
 From CVP Require Import Signals_proofs.
+From CVP Require Import C19_count.
 Open Scope N_scope.
 
 (* after ANY sequence of new/add_signals/remove_signals/set_signals/Drop, raises and dispatches (thread mask initially
@@ -29,3 +30,13 @@ Example C19_nonvacuous :
   let st := s_run [SNew [SUSR1; SHUP]; SRaise SUSR1; SRaise SUSR1; SRaise SWINCH; SAdd [SURG]; SDispatch; SRemove [SHUP]; SDrop] in
   reported st = [SUSR1] /\ handled st SWINCH = 1 /\ escaped st = [].
 Proof. vm_compute. repeat split. Qed.
+
+(* conservation over WHOLE histories: per signal, reports to the callback + runs of the ordinary handler + (1 if still pending) never
+   exceed the number of times it was raised - no raise is reported twice, none is invented (standard signals coalesce, so raises may
+   outnumber them); and one dispatch reports a signal at most once *)
+Theorem C19_every_report_has_its_own_raise : forall ops x,
+  cnt x (reported (s_run ops)) + handled (s_run ops) x + (if pending (s_run ops) x then 1 else 0) <= raised x ops.
+Proof. exact reports_and_handlers_never_exceed_raises. Qed.
+Theorem C19_one_dispatch_reports_once : forall st x, alive st = true -> cnt x (reported (s_step st SDispatch)) <= cnt x (reported st) + 1.
+Proof. exact dispatch_got_once. Qed.
+Print Assumptions C19_every_report_has_its_own_raise.
